@@ -181,7 +181,7 @@ class WaitUntilDecoratorManager(DecoratorManager):
         self.kwargs = kwargs
         self._future: asyncio.Future[DispatchData] = self.hass.loop.create_future()
         self.timeout_decorator = None
-        if timeout := kwargs.get("timeout"):
+        if (timeout := kwargs.get("timeout")) is not None:
             to_dec = DecoratorRegistry._decorators.get("time_trigger")
             self.timeout_decorator = to_dec([f"once(now + {timeout}s)"], {})
             self.add(self.timeout_decorator)
